@@ -89,7 +89,10 @@ def gen_instance(rng, allow_ext=True):
         else:
             dims = gen.gen_dims(rng)
         p = 0 if solver == 'dsdp' else None
-        inst = gen.gen_conelp(rng, kind, dims=dims, qp=kind in ('coneqp', 'qp'), ml_ge_n=kind in ('lp', 'qp'), p=p)
+        if kind in ('coneqp', 'qp') and rng.random() < 0.15:
+            inst = gen.gen_eqqp(rng, kind)          # no inequalities at all: G, h (and dims) are None, direct solve
+        else:
+            inst = gen.gen_conelp(rng, kind, dims=dims, qp=kind in ('coneqp', 'qp'), ml_ge_n=kind in ('lp', 'qp'), p=p)
         if solver is None:
             gen.add_startpoints(rng, inst)
             r_ = rng.random()
@@ -120,6 +123,10 @@ def gen_instance(rng, allow_ext=True):
         iopts.pop('debug', None)
         inst['nested'] = {'inst': inner, 'at': sorted(rng.sample(range(2, 14), rng.randint(1, 3))), 'opts': iopts}
     inst['solver'] = solver
+    if inst.get('p') == 0 and kind not in ('gp', 'op') and solver is None and rng.random() < 0.25:
+        inst['pass_empty_A'] = True         # A, b given as 0 x n and 0 x 1 matrices instead of None
+    if kind in ('conelp', 'lp') and 'dualstart' in inst and inst.get('p', 0) > 0 and 'y' in inst['dualstart'] and rng.random() < 0.3:
+        inst['dualstart'] = {k_: v_ for k_, v_ in inst['dualstart'].items() if k_ != 'y'}
     if kind in ('conelp', 'coneqp', 'cpl', 'cp') and not (inst['dims']['q'] or inst['dims']['s']) and rng.random() < 0.3:
         inst['dims_none'] = True
     # KKT path
